@@ -35,12 +35,16 @@ def cutStr (c : Char) (s : String) : Option (String × String) :=
 
 /-! ### Mapping -/
 
-def mappingOfList : List Val → Val.KVs → Val.KVs
+/-- the list form shared by `Mapping`, `MappingWithEquals` and `Labels`: `KEY=VALUE` → `KEY ↦ VALUE`,
+a bare `KEY` ↦ `dflt` (`""` for `Mapping`/`Labels`, nil for `MappingWithEquals`) -/
+def kvOfList (dflt : Val) : List Val → Val.KVs → Val.KVs
   | [], acc => acc
   | e :: r, acc =>
     match cutStr '=' (sprint e) with
-    | some (k, v) => mappingOfList r (Val.insert k (.str v) acc)
-    | none => mappingOfList r (Val.insert (sprint e) (.str "") acc)
+    | some (k, v) => kvOfList dflt r (Val.insert k (.str v) acc)
+    | none => kvOfList dflt r (Val.insert (sprint e) dflt acc)
+
+def mappingOfList : List Val → Val.KVs → Val.KVs := kvOfList (.str "")
 
 def mappingOfMap (m : Val.KVs) : Val.KVs :=
   m.map fun (k, e) => (k, match e with | .null => .str "" | e => .str (sprint e))
@@ -57,12 +61,7 @@ def mappingValue : Val → Val
   | .str s => .str s
   | e => .str (sprint e)
 
-def mweOfList : List Val → Val.KVs → Val.KVs
-  | [], acc => acc
-  | e :: r, acc =>
-    match cutStr '=' (sprint e) with
-    | some (k, v) => mweOfList r (Val.insert k (.str v) acc)
-    | none => mweOfList r (Val.insert (sprint e) .null acc)
+def mweOfList : List Val → Val.KVs → Val.KVs := kvOfList .null
 
 def decodeMWE : Val → Option Val
   | .map m => some (.map (m.map fun (k, e) => (k, mappingValue e)))
